@@ -277,6 +277,7 @@ theorem struct_rt (norm : String → String) (fs : List Fld) (hne : tg fs ≠ []
     intro f hf hne
     simp only [φ, htn, lookupKey_map, findF_tg hne, findF_self hdist hf hne, Option.map_some, Option.getD_some]
   have hdist' : tagsDistinct tags = true := hdist
+  have heff : effTags tags = tags := effTags_of_distinct tags hdist
   have hW : (names.map fun k => Res.ok (((findF k (tg fs)).map (·.w)).getD default)) =
       (names.map fun k => ((findF k fs).map (·.w)).getD default).map Res.ok := by
     rw [List.map_map]
@@ -285,14 +286,14 @@ theorem struct_rt (norm : String → String) (fs : List Fld) (hne : tg fs ≠ []
     simp only [Function.comp, findF_tg (hmem k hk).1]
   refine ⟨?_, ?_, ?_, ?_⟩
   · -- ToCtyValue
-    simp only [toCtyG, hnames, Bool.false_eq_true, if_false, hdist', Bool.not_true]
+    simp only [toCtyG, hnames, Bool.false_eq_true, if_false, heff]
     rw [toCtyF_flds norm names (names.map φ) fs (fun f hf hne => ⟨by
       rw [lookupKey_names φ f.tag names (hmem' f hf hne), hφ f hf hne], hto f hf hne⟩)]
     rw [htn, attrResults_flds (tg fs) φ names hmemT, hW, combAll_map_ok]
   · -- FromCtyValue
     simp only [ov, objectVal]
     unfold fromCtyP
-    simp only [GoTy.base, GoTy.isCval, Bool.false_eq_true, if_false, bne_self_eq_false, hdist', Bool.not_true,
+    simp only [GoTy.base, GoTy.isCval, Bool.false_eq_true, if_false, bne_self_eq_false, heff,
       GoTy.depth, wrapPtr]
     rw [missingRequired_none names tags _ (fun t ht hne => by
       obtain ⟨f, hf, rfl⟩ := List.mem_map.mp ht
